@@ -53,7 +53,7 @@ type refCell struct {
 	epoch      int
 }
 
-func (rc *refCell) reg(name string) *absint.Int { return rc.regs[name] }
+func (rc *refCell) reg(name string) *absint.Int   { return rc.regs[name] }
 func (rc *refCell) k(w int, v uint64) *absint.Int { return absint.NewConst(w, v, false) }
 func (rc *refCell) ib(i int) *absint.Int {
 	if i == 1 && rc.c.Op1 >= 0 {
